@@ -42,7 +42,7 @@ LD = np.longdouble
 
 
 def shards(tier, seed):
-    n = 25 if tier == "quick" else 500
+    n = 25 if tier == "quick" else 2500
     return [{"kind": "compact", "seed": seed, "shard": i, "n": n} for i in range(16)]
 
 
